@@ -332,7 +332,12 @@ def _evaluate_binary_operator(bin_op, left_value, right_value):
     elif bin_op == '*':
         # number * number
         if _is_number(left_value) and _is_number(right_value):
-            return left_value * right_value
+            result = left_value * right_value
+
+            # An integer product beyond any number's range becomes a float (overflow) to bound repeated squaring
+            if isinstance(result, int) and result.bit_length() > _POWER_BITS_MAX:
+                result = float(result)
+            return result
 
     elif bin_op == '/':
         # number / number
@@ -376,7 +381,7 @@ def _evaluate_binary_operator(bin_op, left_value, right_value):
     return None
 
 
-# The maximum size, in bits, of an exactly-computed integer power
+# The maximum size, in bits, of an exactly-computed integer power or product
 _POWER_BITS_MAX = 65536
 
 
